@@ -86,6 +86,8 @@ def generate(rng, n):
         clash.update({"path": "Server/x86_64/iso/clash.iso", "checksums": {"sha256": "f" * 64}})
         pool += [u1, u2, clash]
         ops = [["Server", "x86_64", i] for i in range(m)]
+        if m == 70:
+            ops = [["Server", "x86_64", m], ["Server", "x86_64", m + 1]] + ops        # the unified pair is there before the cell grows
         ops += [["Server", "x86_64", m], ["Server", "x86_64", m + 1], ["Server", "x86_64", m + 2], ["Server", "src", 5], ["Server", "nosrc", 6],
                 ["Server", "bogus", 7], ["Client", "x86_64", m], ["Client", "x86_64", m + 1]]
         cases.append({"version": None, "compose": valid_compose(rng, R), "pool": pool, "ops": ops})
